@@ -94,6 +94,7 @@ func main() {
 	}
 	if os.Getenv("IAVLCHECK_DUMPFORMAT") != "" {
 		dumpFormats(root, v2)
+		dumpTables(root)
 	}
 	loadT := time.Since(start)
 	fmt.Printf("loaded in %.1fs (root funcs=%d)\n", loadT.Seconds(), func() int {
